@@ -427,6 +427,46 @@ pub fn run(ctx: &'static Ctx) {
                 }
             }
         });
+        // very large shapes (the cell count passes 65535 although neither dimension is extreme; and extreme x 1): accepted,
+        // every cell assigned, compared
+        let big: Vec<(usize, usize)> = if quick { vec![(256, 256), (300, 300), (255, 257), (1, 65_536), (65_537, 1), (2, 40_000)] } else { vec![(256, 256), (300, 300), (255, 257), (1, 65_536), (65_537, 1), (2, 40_000), (1000, 1000), (3, 70_000)] };
+        big.par_iter().for_each(|(ni, nt)| {
+            let (ni, nt) = (*ni, *nt);
+            let f = Fill::b(2);
+            n.fetch_add(1, std::sync::atomic::Ordering::Relaxed);
+            let r = catch(|| {
+                let ff = f.with(crate::fill::SZ, ni as u64).with(crate::fill::SX, nt as u64);
+                let mut s = real_sll_new(&ff, sll_shape(0, 0, 0));
+                let mut cells = vec![0xffffu16; ni * nt];
+                for i in (0..ni).step_by(1 + ni / 300) {
+                    for j in (0..nt).step_by(1 + nt / 300) {
+                        let v = ((i * 31 + j * 7) as u16) | 1;
+                        s.set_entry_value(i, j, v);
+                        cells[i * nt + j] = v;
+                    }
+                }
+                s.set_entry_value(ni - 1, nt - 1, 0x1234);
+                cells[ni * nt - 1] = 0x1234;
+                let img = ser(&s);
+                let mut w = W::new();
+                ref_sll_with(&mut w, &ff, sll_shape(0, 0, 0), &vec![0u32; ni], &vec![0u32; nt], &cells);
+                let c = Ctor::new(2, 0, 2);
+                let mut t = hmat::HMAT::new(c.oem_id(), c.oem_table_id(), c.oem_rev());
+                t.add_system_locality(s);
+                let table = ser(&t);
+                (img == w.0, crate::util::first_diff(&img, &w.0), sum8(&table), table.len() == 40 + img.len())
+            });
+            ctx.tr((ni * nt) as u64 / 64);
+            match r {
+                Ok((true, _, 0, true)) => {}
+                Ok((same, d, sum, lenok)) => {
+                    ctx.violation_sized("hmat:cell:very-large-shape", (ni * nt) as u64, || format!("HMAT locality {}x{}: structure equals the reference: {} (first difference {:?}); table sum {} ; table length consistent: {}", ni, nt, same, d, sum, lenok), || json!({"family":"hmat-sll-sweep","initiators":ni,"targets":nt}));
+                }
+                Err(m) => {
+                    ctx.violation_sized("hmat:refused:very-large-shape", (ni * nt) as u64, || format!("HMAT locality {}x{} (a shape whose size fits the 32-bit length field) was refused: {}", ni, nt, m), || json!({"family":"hmat-sll-sweep","initiators":ni,"targets":nt}));
+                }
+            }
+        });
         ctx.st(n.load(std::sync::atomic::Ordering::Relaxed));
         ctx.engine("E3.hmat-shape-sweep", json!({"grid": g, "shapes": shapes.len(), "programs": n.load(std::sync::atomic::Ordering::Relaxed), "orders": ["row-major", "column-major", "reverse"]}));
         // SLIT: every L up to the grid size: all cells of the upper triangle assigned distinct values (both argument orders), then compared
